@@ -12,10 +12,12 @@
      * by induction over ALL operation histories of the solver without shrinking: invariants + monotone
        objective;
      * the analytic sub-solvers of the box-constrained problem: results stay in the box, the 1-D
-       solver never loses objective when Q >= 1e-12 or Q = 0, the 2-D solver never loses objective
-       on its free branch / when the point lies on edge 0 / when an edge improves
-       (box2d_gain_nonneg_partial), and the faithful model DOES lose objective for
-       0 < det <= 1e-12 (box2d_gain_refuted, finding F3) resp. 0 < Q < 1e-12 (edge, same family).
+       solver never loses objective when Q >= 1e-12 or Q = 0 (and the faithful model DOES lose objective
+       for 0 < Q < 1e-12: C08_edge_solver_gain_refuted); the 2-D solver, as repaired by /repo commit
+       bc5f2886 (finding F3: relative rank test, current point kept when no edge improves), never loses
+       objective for ANY point in the box, gradient and 2x2 block with non-negative diagonal
+       (C08_box2d_gain_nonneg, full statement) and in its edge branch returns a point at least as good as
+       every edge candidate (C08_box2d_edges_best).
      * shrinking: a variable removed by testShrinkVariable admits no improving feasible first-order step
        at that moment (both problem types); unshrink() restores g = lin - K alpha for ALL variables
        from the edge gradient (given Inv_edge, Inv_grad on the active set, shrunk variables at a bound).
@@ -82,30 +84,25 @@ Theorem C08_box2d_in_box : forall ai aj gi gj Qii Qij Qjj Li Ui Lj Uj : QArith_b
 Proof. exact solve_2d_in_box. Qed.
 Print Assumptions C08_box2d_in_box.
 
-(* full statement wanted: forall PSD Q and points in the box, 0 <= gain.  It is FALSE for the code
-   (next theorem); proved: the three situations below. *)
-Theorem C08_box2d_gain_nonneg_partial : forall ai aj gi gj Qii Qij Qjj Li Ui Lj Uj : QArith_base.Q,
-  let es := edges2d qops ai aj gi gj Qii Qij Qjj Li Ui Lj Uj in
+(* full statement: every point in the box, every gradient, every block with non-negative diagonal
+   (hence every positive semi-definite block): the 2-D step never loses objective.  (False before /repo
+   commit bc5f2886, finding F3; regression examples box2d_F3_witness_repaired / box2d_keep_point.) *)
+Theorem C08_box2d_gain_nonneg : forall ai aj gi gj Qii Qij Qjj Li Ui Lj Uj : QArith_base.Q,
+  Li <= ai -> ai <= Ui -> Lj <= aj -> aj <= Uj -> 0 <= Qii -> 0 <= Qjj ->
+  let r := solve_2d qops ai aj gi gj Qii Qij Qjj Li Ui Lj Uj in
+  0 <= gain2 qops gi gj Qii Qij Qjj (fst r - ai) (snd r - aj).
+Proof. exact box2d_gain_nonneg. Qed.
+Print Assumptions C08_box2d_gain_nonneg.
+
+Theorem C08_box2d_edges_best : forall ai aj gi gj Qii Qij Qjj Li Ui Lj Uj : QArith_base.Q,
+  Li <= ai -> ai <= Ui -> Lj <= aj -> aj <= Uj ->
+  ~ free2d ai aj gi gj Qii Qij Qjj Li Ui Lj Uj ->
   let G := fun c : QArith_base.Q * QArith_base.Q =>
              gain2 qops gi gj Qii Qij Qjj (fst c - ai) (snd c - aj) in
   let r := solve_2d qops ai aj gi gj Qii Qij Qjj Li Ui Lj Uj in
-  (free2d ai aj gi gj Qii Qij Qjj Li Ui Lj Uj -> 0 <= Qii) ->
-  (free2d ai aj gi gj Qii Qij Qjj Li Ui Lj Uj \/
-   (ai == Li /\ Lj <= aj /\ aj <= Uj /\ (qthr <= Qjj \/ Qjj == 0)) \/
-   (exists c, In c es /\ 0 < G c)) ->
-  0 <= gain2 qops gi gj Qii Qij Qjj (fst r - ai) (snd r - aj).
-Proof. exact box2d_gain_nonneg_partial. Qed.
-Print Assumptions C08_box2d_gain_nonneg_partial.
-
-(* finding F3: positive definite 2x2 block with 0 < det <= 1e-12, point strictly inside the box,
-   interior optimum: the code falls back to edge 0 and loses objective *)
-Theorem C08_box2d_gain_refuted : exists ai aj gi gj Qii Qij Qjj Li Ui Lj Uj : QArith_base.Q,
-  0 < Qii /\ 0 < Qjj /\ 0 < Qii * Qjj - Qij * Qij /\ Qii * Qjj - Qij * Qij <= qthr /\
-  Li < ai /\ ai < Ui /\ Lj < aj /\ aj < Uj /\
-  (let r := solve_2d qops ai aj gi gj Qii Qij Qjj Li Ui Lj Uj in
-   gain2 qops gi gj Qii Qij Qjj (fst r - ai) (snd r - aj) < 0).
-Proof. exact box2d_gain_refuted. Qed.
-Print Assumptions C08_box2d_gain_refuted.
+  forall c, In c (edges2d qops ai aj gi gj Qii Qij Qjj Li Ui Lj Uj) -> G c <= G r.
+Proof. exact box2d_edges_best. Qed.
+Print Assumptions C08_box2d_edges_best.
 
 (* a variable removed by the shrink test cannot take part in an improving feasible step *)
 Theorem C08_shrink_sound_svm : forall (s : qst) (m a : nat),
